@@ -10,7 +10,7 @@ import (
 
 var collSeq = vkit.NewCollector("C16", "TestSequences", "sequences of 1-14 RegisterUpcastFunc / ClearUpcasts / ClearUpcastsForType over 2-5 type names (and the empty name) with upcasters that are nil, faithful, failing, or return another name of the set (incl. their own source). Oracle: accepted <=> both names non-empty, different, function non-nil and the target does not reach the source in a reference graph (BFS); after every step one stored event of every name is replayed with upcasting and must terminate (harness upcasters abort with a sentinel panic after |names|+2 applications to one event). Non-trivial = a registration rejected for a transitive path, or a non-faithful upcaster registered.")
 var collPair = vkit.NewCollector("C16", "TestConcurrentPairs", "two registrations issued concurrently after 0-4 set-up registrations (barrier start, 50 rounds, race detector, drawn GOMAXPROCS), biased to A and its reverse; oracle = the two results equal those of one of the two serial orders. Non-trivial = the serial orders give different results.")
-var collEnum = vkit.NewCollector("C16", "TestEnumSmall", "complete enumeration of every sequence of up to 3 (quick) / 4 (thorough, sharded) registrations over 3 names with upcasters from {faithful, returns-its-own-source}; same oracle.")
+var collEnum = vkit.NewCollector("C16", "TestEnumSmall", "complete enumeration of every sequence of up to 3 (quick) / 4 (thorough, sharded) registrations over 3 names with upcasters from {faithful, returns-its-own-source}, and of every sequence of up to 5 (quick) / 7 (thorough) operations from {reg a->b, reg b->a, reg a->a, ClearUpcasts, ClearUpcastsForType(a), ClearUpcastsForType(b)} over 2 names; same oracle.")
 
 var collDuring = vkit.NewCollector("C16", "TestReplayWhileWriting", "a registry writer arrives while an upcasting replay is inside an upcast function: 1-6 set-up registrations over 2-5 names (faithful, failing - biased -, type-deviating upcasters), one stored event per name; the k-th upcaster application starts RegisterUpcastFunc (unrelated names) / ClearUpcasts / ClearUpcastsForType on another goroutine, lingers 0-2 ms without synchronising with it and then returns or fails as registered; upcast error handler installed or not; race detector on. Oracle: the replay and the writer both return (a hang must reproduce twice), no upcaster budget overrun, every stored event reaches the callback once. Non-trivial = the writer was started.")
 
@@ -28,6 +28,22 @@ func TestEnumSmall(t *testing.T) {
 	shard, shards := vkit.Shard()
 	i := 0
 	EnumSmall(3, maxLen, func(c *Case) {
+		i++
+		if i%shards != shard {
+			return
+		}
+		if v := collEnum.Account(c, Run(c)); v != nil {
+			vkit.SaveFail("C16", "TestEnumSmall", c, v)
+			t.Fatalf("%s", v.Error())
+		}
+	})
+	// sequences with clears over two names (registrations after a clear must
+	// be judged against the registry as it is then)
+	clearLen := 5
+	if vkit.Tier() == "thorough" {
+		clearLen = 7
+	}
+	EnumClears(clearLen, func(c *Case) {
 		i++
 		if i%shards != shard {
 			return
